@@ -271,7 +271,7 @@ def big_document(ctx, prop, work, rng, n=None, salt=None):
 def run(ctx, prop):
     rng = ctx.rng
     work = os.path.join(vlib.WORK, "%s_%d" % (prop, os.getpid()))
-    reqs = []; meta = []
+    reqs = []; meta = []; treqs = []
     n_cases = {"quick": 45, "thorough": 900}[ctx.tier]
     try:
         for ci in range(n_cases):
@@ -291,6 +291,7 @@ def run(ctx, prop):
             for caller in callers:
                 out, _ = parsecmp.impl_parse(work, files, caller)
                 reqs.append(parsecmp.model_request(work, [(n, d) for n, d, _ in ds], caller, vts)); meta.append(("in-domain", ci, caller, out, None))
+                treqs.append(parsecmp.model_request_text(work, files, caller, vts))
                 outs.append((caller, out))
                 feats = ["files=%d" % len(ds), "prefix=%s" % lay["prefix"], "caller" if caller else "no-caller"]
                 nontriv = len(ds) > 1 and any(l[1:] != sorted(l[1:]) for _, _, l in ds) or bool(vts) or bool(caller)
@@ -345,6 +346,7 @@ def run(ctx, prop):
                     caller = rng.choice([None, [UA] + g.uris[::-1]])
                     out2, _ = parsecmp.impl_parse(work, files2, caller)
                     reqs.append(parsecmp.model_request(work, [(n, d) for n, d, _ in ds2], caller, vts)); meta.append(("in-domain", ci, caller, out2, None))
+                    treqs.append(parsecmp.model_request_text(work, files2, caller, vts))
                     ctx.record(dict(case=ci, variant=v, files=[n for n, _ in files2]), True, ["metamorphic"])
                     if out2[0] != "ok":
                         ctx.fail("%s/variant-raises" % prop, dict(kind="docset", files=files2, caller=caller), out2[1]); continue
@@ -362,6 +364,7 @@ def run(ctx, prop):
                 try: rq = parsecmp.model_request(work, [(n, d) for n, d, _ in dsm], None, vts)
                 except Exception: continue
                 reqs.append(rq); meta.append(("out-of-domain", ci, None, outm, kind))
+                treqs.append(parsecmp.model_request_text(work, filesm, None, vts))
                 ctx.record(dict(case=ci, malformed=kind), True, ["malformed=" + kind])
     finally:
         shutil.rmtree(work, ignore_errors=True)
@@ -375,11 +378,25 @@ def run(ctx, prop):
         io = out if out[0] == "ok" else ["err"]; mm = mo if mo[0] == "ok" else ["err"]
         if io != mm:
             ctx.disagree(stream, dict(case=ci, caller=caller, malformed=kind), parsecmp.diff(out, mo), "see impl column")
+    # the same document sets as BYTES: the model reads the rendered XML with its own reader (Xml.xparse, resolve, M_ParseText.doc_of_nxml)
+    assert len(treqs) == len(reqs)
+    tans = vlib.run_model(treqs, shards=12)
+    n_text = 0; n_text_uns = 0
+    for (stream, ci, caller, out, kind), a, ta in zip(meta, ans, tans):
+        mt = parsecmp.dec_model(ta)
+        if mt[0] == "err" and mt[1] == "Unsupported": n_text_uns += 1; continue
+        n_text += 1
+        io = out if out[0] == "ok" else ["err"]; mm = mt if mt[0] == "ok" else ["err"]
+        if io != mm: ctx.disagree(stream if stream != "in-domain" else "in-domain-text", dict(case=ci, caller=caller, malformed=kind), parsecmp.diff(out, mt), "model on the file bytes; see impl column")
+        ma = parsecmp.dec_model(a)
+        if stream == "in-domain" and ma[0] == "ok" and mt != ma: ctx.disagree("reader", dict(case=ci, caller=caller), "model on bytes: %s" % parsecmp.diff(mt, ma), "model on the element structure")
+    ctx.notes["document_sets_parsed_by_the_model_from_bytes"] = "%d (reader unsupported: %d)" % (n_text, n_text_uns)
     pick = [i for i in range(len(reqs)) if len(vlib.to_sx(reqs[i])) < 6000][:12 if ctx.quick() else 40]
     ctx.crosscheck = vlib.coq_crosscheck([reqs[i] for i in pick], [ans[i] for i in pick], prop.lower())
 
 TRUSTED = ["hand-written Gallina model coq/M_Parse.v of parse_xml_files and everything below it (extend_namespace_map, alias tables, parse_node_attrib, findrefs, get_attrib_df casts, "
-           "browse-name split, per-file and global de-duplication, normalize_wrt_nodeid); lxml is not modelled: the implementation reads rendered XML text, the model reads the element structure the harness rendered it from",
+           "browse-name split, per-file and global de-duplication, normalize_wrt_nodeid); lxml is not modelled: the model reads the SAME FILE BYTES as the implementation with its own XML reader "
+           "(coq/Xml.v xparse + resolve, coq/M_ParseText.v doc_of_nxml: no comments, CDATA, DOCTYPE or entity definitions) and, as a cross-check of that reader, also the element structure the harness rendered the text from",
            "pandas concat/explode/drop_duplicates/factorize are modelled as list operations (Table.v); dtype conversions as integer wrap-around",
            "extraction + driver.ml, cross-checked against vm_compute on a sample"]
 RULE = ("document sets are serialisations of random abstract graphs (1-3 namespaces plus a base document, eight node classes, four identifier types, hostile names and texts, "
